@@ -306,8 +306,18 @@ func c14Monitor(r *mc.Run, c lockCfg) engb.Monitor {
 		}
 
 		// ---- state invariants after the whole block
+		// what the consensus engine holds: every ValidatorUpdates answer since genesis applied with
+		// CometBFT's own code. The module's record of the set is not evidence of that (a removal that
+		// is deleted from the record before EndBlocker compares is never reported).
+		engine := map[string]int64{}
+		for _, ev := range next.RV.Latest() {
+			engine[string(ev.Address)] = ev.Power
+		}
 		for a, v := range post.Vals {
 			rv := aux.V[a]
+			if p, ok := engine[a]; ok && (rv.Tomb || (rv.Jailed && v.Status == lockingtypes.Downgrade)) {
+				viol("punished-validator-still-in-the-consensus-engine's-set", fmt.Sprintf("validator %x tombstoned=%v jailed=%v status=%s: the validator updates reported since genesis leave it in CometBFT's set with power %d", a, rv.Tomb, rv.Jailed, v.Status, p))
+			}
 			if rv.Tomb {
 				_, inSet := post.ValSet[a]
 				if v.Status != lockingtypes.Tombstoned || v.Power != 0 || inRanking(post, a) || inSet {
